@@ -15,6 +15,8 @@ partition lemmas) and compares with the budget:
     ledger-guard    the continuation test is `rho - ledger < K * charge` with K >= 1, so continuing implies ledger + charge <= rho;
                     the final round re-derives sigma, epsilon so that its charge is exactly rho - ledger and terminates the loop
     ledger-base     the ledger's initial value is <= rho for all parameters          [F6: it is not]
+    rho-binding     the budget the ledger is compared with (self.rho, set by Mechanism.__init__) is cdp_rho of this construction's own
+                    (epsilon, delta) - or a constant fraction of it, or 0
 Assumptions are recorded in the evidence (A-Q: unit-column-norm query matrices in Adaptive Grid; cdp_rho sound (C07);
 zCDP composition, eps-DP => eps^2/8-zCDP, parallel composition within one marginal).
 Not decided: floating point; that Q really has unit column norm.
@@ -69,6 +71,7 @@ def run(ctx):
     ctx.floor('closed-form budget configurations', configs, 7)
     # ---- AIM -------------------------------------------------------------------------------------------------------
     w = check_aim(ctx)
+    check_rho_binding(ctx)
     collect(covered, w)
     check_coverage(ctx, covered)
 
@@ -313,3 +316,79 @@ def check_coverage(ctx, covered):
         ctx.ob('coverage', (rel.mod.rel, rel.func), rel.node, ok,
                'DP primitive site reached by the taint analysis %s a cost term of the budget analysis' % ('has' if ok else 'has NO'))
     ctx.floor('primitive sites cross-checked with E4', n, 9)
+
+
+def check_rho_binding(ctx):
+    """Mechanism.__init__: self.rho is what every class-based mechanism spends against"""
+    from ..normalise import Defs, expand
+    from ..symexpr import SymEval
+    fi = ctx.repo.nfunc(MECH, 'Mechanism.__init__')
+    ctx.analysed(fi)
+    if len(fi.params) < 3:
+        raise AnalysisError('Mechanism.__init__: (epsilon, delta) parameters not found')
+    eps, delta = fi.params[1], fi.params[2]
+    conv = ctx.repo.func('mechanisms/cdp2adp.py', 'cdp_rho')
+    cparams = conv.params
+    defs = Defs(fi.body)
+    stores = [s for s in ast.walk(fi.node) if isinstance(s, ast.Assign) and any(U(t) == 'self.rho' for t in s.targets)]
+    if not stores:
+        raise AnalysisError('Mechanism.__init__: no store to self.rho')
+    for s in stores:
+        v = expand(s.value, defs, keep=(eps, delta))
+        problems = []
+
+        def hook(call, ev):
+            name = U(call.func).split('.')[-1]
+            if name != 'cdp_rho':
+                return None
+            bound = dict(zip(cparams, call.args))
+            for k in call.keywords:
+                bound[k.arg] = k.value
+            if set(bound) != set(cparams[:2]):
+                raise AnalysisError('Mechanism.__init__: unrecognised call `%s`' % U(call))
+            a, b = U(bound[cparams[0]]), U(bound[cparams[1]])
+            if (a, b) == (eps, delta):
+                return sym('rho')
+            if (a, b) == (delta, eps):
+                problems.append('`%s` passes (delta, epsilon) for (%s, %s)' % (U(call), cparams[0], cparams[1]))
+                return sym('rho_of_swapped_arguments')
+            raise AnalysisError('Mechanism.__init__: the budget is `%s`, not the conversion of this construction\'s own (%s, %s): whether it '
+                                'is within the budget is not decided here' % (U(call), eps, delta))
+        ev = SymEval({}, None, hook, strict=True)
+
+        def ifexp(e):
+            a, b = ev.ev(e.body), ev.ev(e.orelse)
+            return a if a.eq(b) else None
+        ev.ifexp = ifexp
+        vals = []
+        todo = [v]
+        while todo:
+            x = todo.pop()
+            if isinstance(x, ast.IfExp):
+                todo.extend([x.body, x.orelse])
+            else:
+                vals.append(x)
+        for x in vals:
+            try:
+                val = ev.ev(x)
+            except AnalysisError as e:
+                if 'Mechanism.__init__' in str(e):
+                    raise
+                raise AnalysisError('Mechanism.__init__: the budget `%s` is not in a recognised form (%s)' % (U(x)[:80], e))
+            ok = None
+            if val.eq(const(0)):
+                ok, why = True, 'is 0'
+            elif val.is_rat():
+                from ..symexpr import Poly
+                n_, d_ = val.rat().n, val.rat().d
+                P = Poly.sym('rho') * d_
+                k0 = sorted(P.t)[0]
+                c = n_.t.get(k0, 0) / P.t[k0]
+                if (n_ - Poly.const(c) * P).iszero():
+                    ok, why = (0 <= c <= 1), 'is %s * cdp_rho(%s, %s)' % (c, eps, delta)
+            if problems:
+                ok, why = False, problems[0]
+            if ok is None:
+                raise AnalysisError('Mechanism.__init__: cannot compare the budget `%s` with cdp_rho(%s, %s)' % (U(x)[:80], eps, delta))
+            ctx.ob('rho-binding', fi, s, ok, 'the zCDP budget of the mechanism may not exceed cdp_rho(%s, %s) of its own construction; `%s` %s'
+                   % (eps, delta, U(x)[:80], why), construct='self.rho = ... %s' % U(x)[:60])
